@@ -25,7 +25,7 @@ impl Property for C03 {
         "C03"
     }
     fn rule(&self) -> &'static str {
-        "profile `attribution`: 2-8 output-capable 64-bit signals (outputs and bidirectionals interleaved with inputs), 0-2 virtual signals, loop-free rows (some with C), `let` statements binding variables named like output-capable signals in a quarter of the positions, driver layout = random subset in random order, per-call values from a wide palette (arbitrary 64-bit, boundary, small, Z, X), expected entries drawn to agree with what the script returns in that call in about half of the entries and to disagree / be X / be Z otherwise. In a third of the cases another iterator over the same TestCase has run before against a driver with a different layout of the same length. In a quarter of the cases the driver fails on one call (the caller goes on; an item that is a checked row by its position must report its outputs). A row that a virtual signal turns into an error item (it read Z/X) does not end the run: the caller goes on and the rows after it are checked the same way. Oracle: for every checked row, entry.output == what the recording driver returned for that signal in that row's call (X if not in the layout); check() by an independent 3x3 table; is_checked() iff expected != X; failing_outputs() == exactly the entries that do not pass. Non-trivial: layout is a proper subset or non-identity permutation, >= 2 supplied outputs differ in some call, both verdicts occur; distinct by source + signals + driver."
+        "profile `attribution`: 2-9 output-capable 64-bit signals (now and then two whose names differ in letter case only) (outputs and bidirectionals interleaved with inputs), 0-2 virtual signals, loop-free rows (some with C), `let` statements binding variables named like output-capable signals in a quarter of the positions, driver layout = random subset in random order, per-call values from a wide palette (arbitrary 64-bit, boundary, small, Z, X), expected entries drawn to agree with what the script returns in that call in about half of the entries and to disagree / be X / be Z otherwise. In a third of the cases another iterator over the same TestCase has run before against a driver with a different layout of the same length. In a quarter of the cases the driver fails on one call (the caller goes on; an item that is a checked row by its position must report its outputs). A row that a virtual signal turns into an error item (it read Z/X) does not end the run: the caller goes on and the rows after it are checked the same way. Oracle: for every checked row, entry.output == what the recording driver returned for that signal in that row's call (X if not in the layout); check() by an independent 3x3 table; is_checked() iff expected != X; failing_outputs() == exactly the entries that do not pass. Non-trivial: layout is a proper subset or non-identity permutation, >= 2 supplied outputs differ in some call, both verdicts occur; distinct by source + signals + driver."
     }
     fn cases(&self, tier: Tier) -> u64 {
         match tier {
@@ -37,7 +37,7 @@ impl Property for C03 {
         [300, 8, 60]
     }
     fn required_classes(&self) -> Vec<&'static str> {
-        vec!["layout-subset", "layout-permuted", "output-Z", "output-X", "expected-Z", "pass", "fail", "Z-matches-Z", "X-output-vs-number", "virtual", "bidirectional", "supplied-output-not-in-header", "variable-named-like-output", "checked-row-after-error-item", "row-after-driver-failure", "another-iterator-with-another-layout-ran-before"]
+        vec!["layout-subset", "layout-permuted", "output-Z", "output-X", "expected-Z", "pass", "fail", "Z-matches-Z", "X-output-vs-number", "virtual", "bidirectional", "supplied-output-not-in-header", "variable-named-like-output", "checked-row-after-error-item", "row-after-driver-failure", "another-iterator-with-another-layout-ran-before", "outputs-differing-in-letter-case-only"]
     }
     fn run(&self, s: &Streams) -> CaseOut {
         let mut out = CaseOut::new();
@@ -51,7 +51,19 @@ impl Property for C03 {
         cfg.odd_names = true;
         cfg.omit_cols = true;
         cfg.permute_header = true;
-        let sigs = gen_signals(&mut ch, &cfg);
+        let mut sigs = gen_signals(&mut ch, &cfg);
+        // now and then an output has a twin whose name differs in the case of its letters only
+        // (same width): two signals all the same
+        if ch.chance(1, 6) {
+            if let Some(o) = sigs.iter().find(|s| matches!(s.kind, Kind::Out) && is_ident(&s.name) && s.name.to_lowercase() != s.name).cloned() {
+                let twin = o.name.to_lowercase();
+                if !sigs.iter().any(|s| s.name == twin) {
+                    let at = ch.upto(sigs.len() + 1);
+                    sigs.insert(at, Sig { name: twin, bits: o.bits, kind: Kind::Out });
+                    out.class("outputs-differing-in-letter-case-only");
+                }
+            }
+        }
         let nv = ch.upto(3);
         let outs: Vec<String> = sigs.iter().filter(|s| s.is_output() && is_ident(&s.name)).map(|s| s.name.clone()).collect();
         let mut virtuals = vec![];
